@@ -142,6 +142,10 @@ def transform_common(text, counts, is_async=False):
     n = len(re.findall(r'\bString::from\(', text))
     if n:
         text = re.sub(r'\bString::from\(', 'string_from_str(', text); counts['R12b'] = counts.get('R12b', 0) + n
+    # R12b: std::cmp::min(a, b) / max(a, b) are by definition Ord::min(a, b) / Ord::max(a, b); vstd specifies the latter
+    n = len(re.findall(r'(?<![\w:])(?:(?:std|core)::)?cmp::(min|max)\(', text))
+    if n:
+        text = re.sub(r'(?<![\w:])(?:(?:std|core)::)?cmp::(min|max)\(', r'Ord::\1(', text); counts['R12b'] = counts.get('R12b', 0) + n
     return text
 
 # ------------------------------------------------------------------------------------------
@@ -626,6 +630,19 @@ class Assembler:
                     self.emit(body[idx:end], origin, None, qual)
                 self.annotation_lines(lines, 'template', qual, 'closure')
                 pos = end
+                # a closure with a contract needs a block body: `|x| e` is written `|x| { e }` (same meaning)
+                rest = rsparse.mask(body)[end:]
+                if rest.lstrip()[:1] != '{':
+                    depth = 0; e2 = len(rest)
+                    for q, ch in enumerate(rest):
+                        if ch in '([{': depth += 1
+                        elif ch in ')]}':
+                            if depth == 0: e2 = q; break
+                            depth -= 1
+                        elif ch in ',;' and depth == 0: e2 = q; break
+                    self.emit('{ ' + body[end:end + e2].strip() + ' }', origin, None, qual)
+                    counts['Rclosure_block'] = counts.get('Rclosure_block', 0) + 1
+                    pos = end + e2
         self.emit_block(body[pos:], origin, qual)
         self.fn_ranges.append((first, len(self.out), qual, opts.get('safety', [])))
 
